@@ -74,7 +74,7 @@ def plan(tier, seed):
     k = 16 if tier == 'thorough' else 12
     for s in range(k):
         specs.append(dict(kind='random', seed=seed * 1000 + s, cfgs=cfgs,
-                          examples=1500 if tier == 'thorough' else 220,
+                          examples=1500 if tier == 'thorough' else 400,
                           max_len=60 if tier == 'thorough' else 40))
     depth = 6 if tier == 'thorough' else 4
     specs += H.exhaustive_plan(dict(kind='bdd', nmax=2, init_vars=2),
